@@ -100,6 +100,12 @@ func checkCase(c *Case, count bool) error {
 	}
 	methods := r.Methods()
 	for _, q := range c.Reqs {
+		if q.Path != "*" {
+			// the documented idiom for "which methods serve this url"
+			if d := rt.IterReverseDiff(r.F, q.Host, q.Path); d != "" {
+				return fmt.Errorf("options=%+v routes=%v: %s", c.G, r.Routes, d)
+			}
+		}
 		host := ref.StripHost(q.Host)
 		// per-method oracle: does method m have a route serving this host and path?
 		skip := ""
